@@ -699,7 +699,11 @@ class DictRefsContainer(RefsContainer):
           timezone: Optional timezone for reflog
           message: Optional message for reflog
         """
-        old = self.follow(name)[-1]
+        try:
+            old = self.follow(name)[-1]
+        except SymrefLoop:
+            # re-pointing the ref is how one gets out of a loop
+            old = None
         new = SYMREF + other
         self._refs[name] = new
         self._notify(name, new)
@@ -1301,7 +1305,13 @@ class DiskRefsContainer(RefsContainer):
         f = GitFile(filename, "wb")
         try:
             f.write(SYMREF + other + b"\n")
-            sha = self.follow(name)[-1]
+            # only wanted for the reflog: what the name pointed at so far;
+            # if that was a loop there is no such value, and re-pointing the
+            # ref is how one gets out of the loop
+            try:
+                sha = self.follow(name)[-1]
+            except SymrefLoop:
+                sha = None
             self._log(
                 name,
                 sha,
